@@ -228,8 +228,24 @@ class xcube:
                     bucket["start"] = start
 
         if self.parallel:
+            # Pool workers only hand ordinary Exceptions back to map(); anything
+            # else (KeyboardInterrupt, CancelledError...) would kill the worker
+            # and leave map() waiting forever. Collect failures ourselves,
+            # skip the remaining subcubes, and re-raise the first one.
+            failures = []
+
+            def fill_one_cube_guarded(nested_coords):
+                if failures:
+                    return
+                try:
+                    fill_one_cube(nested_coords)
+                except BaseException as exc:
+                    failures.append(exc)
+
             with closing(self.pool_class(self.poolsize)) as pool:
-                pool.map(fill_one_cube, self.product)
+                pool.map(fill_one_cube_guarded, self.product)
+            if failures:
+                raise failures[0]
         else:
             # The only reason to _not_ multithread this is the extra overhead;
             # for example, if there's only one region anyway, or there are a handful
